@@ -120,7 +120,7 @@ pub fn sc_interop(idx: u64, seed: u64, _t: bool) -> RunOut {
 pub fn sc_honest(idx: u64, seed: u64, _t: bool) -> RunOut {
     let plan = Plan {
         scenario: "honest",
-        opts: CfgOpts { snow_keygen: 500, same_statics: 40, ..CfgOpts::default() },
+        opts: CfgOpts { snow_keygen: 500, same_statics: 40, surplus_psk: 60, ..CfgOpts::default() },
         profile: honest_profile(),
         mode: "plain",
         warm_parallel: false,
@@ -217,7 +217,7 @@ fn fail_retry_profile() -> Profile {
 pub fn sc_fail_retry_ledger(idx: u64, seed: u64, _t: bool) -> RunOut {
     let plan = Plan {
         scenario: "fail-retry-ledger",
-        opts: CfgOpts { record: true, late_psk: 300, surplus_rs: 150, evil_pub: 60, ..CfgOpts::default() },
+        opts: CfgOpts { record: true, late_psk: 300, surplus_rs: 150, evil_pub: 60, surplus_psk: 60, deny_rng: 25, ..CfgOpts::default() },
         profile: Profile { tr_rekey: 60, tr_rekey_sync: 40, tr_nonce_explicit: 40, ..fail_retry_profile() },
         mode: "plain",
         warm_parallel: false,
@@ -635,7 +635,7 @@ pub fn sc_chaos(idx: u64, seed: u64, _t: bool) -> RunOut {
 pub fn sc_chaos_keys(idx: u64, seed: u64, _t: bool) -> RunOut {
     let plan = Plan {
         scenario: "chaos-keys",
-        opts: CfgOpts::default(),
+        opts: CfgOpts { surplus_psk: 100, same_statics: 40, deny_any: 60, deny_rng: 20, ..CfgOpts::default() },
         profile: chaos_profile(),
         mode: "plain",
         warm_parallel: false,
@@ -857,23 +857,31 @@ pub fn boot_matrix_cfgs() -> Vec<RunCfg> {
     for base in names {
         for role in [true, false] {
             for subset in 0..4u8 {
-                let mut variants: Vec<(String, Option<Prim>)> = vec![(String::new(), None)];
+                let mut variants: Vec<(String, Option<Prim>, u8)> = vec![(String::new(), None, 0)];
                 for n in 0..=9u8 {
-                    variants.push((format!("psk{n}"), None));
+                    variants.push((format!("psk{n}"), None, 0));
                 }
-                variants.push(("fallback".into(), None));
-                variants.push(("psk0+psk1".into(), None));
-                variants.push(("psk0+fallback".into(), None));
-                variants.push(("fallback+psk0".into(), None));
-                variants.push(("psk1+fallback+psk0".into(), None));
-                variants.push(("psk1+psk0".into(), None));
+                // modifier lists with an index that fits no pattern, at every list position
+                for m in ["psk9+psk0", "psk0+psk9", "psk5+psk0", "psk0+psk5", "psk0+psk9+psk1", "psk0+psk1+psk5", "psk5+psk0+psk1", "psk4+psk0", "psk0+psk4", "psk3+psk0"] {
+                    variants.push((m.into(), None, 0));
+                }
+                variants.push(("fallback".into(), None, 0));
+                variants.push(("psk0+psk1".into(), None, 0));
+                variants.push(("psk0+fallback".into(), None, 0));
+                variants.push(("fallback+psk0".into(), None, 0));
+                variants.push(("psk1+fallback+psk0".into(), None, 0));
+                variants.push(("psk1+psk0".into(), None, 0));
                 for odd in ["psk10", "psk12", "psk25", "psk100", "psk1x", "psk2fallback", "psk1psk0", "psk", "psk01", "psk+1"] {
-                    variants.push((odd.into(), None));
+                    variants.push((odd.into(), None, 0));
                 }
                 for d in [Prim::Rng, Prim::Dh, Prim::Hash, Prim::Cipher] {
-                    variants.push((String::new(), Some(d)));
+                    variants.push((String::new(), Some(d), 0));
                 }
-                for (mods, deny) in variants {
+                // only the k-th request for a primitive is refused (two DH, three cipher objects)
+                for (d, k) in [(Prim::Dh, 1u8), (Prim::Dh, 2), (Prim::Cipher, 1), (Prim::Cipher, 2), (Prim::Cipher, 3), (Prim::Hash, 1), (Prim::Rng, 1)] {
+                    variants.push((String::new(), Some(d), k));
+                }
+                for (mods, deny, deny_at) in variants {
                     for (dh, cipher, hash) in [("25519", "ChaChaPoly", "SHA256"), ("P256", "AESGCM", "BLAKE2b")] {
                         if (subset != 3 || deny.is_some()) && dh == "P256" && !mods.is_empty() {
                             continue;
@@ -898,6 +906,7 @@ pub fn boot_matrix_cfgs() -> Vec<RunCfg> {
                             deny,
                             evil_static_pub: false,
                             build_order: (out.len() % 128) as u8,
+                            deny_at,
                         };
                         out.push(RunCfg {
                             scenario: "boot-matrix".into(),
@@ -928,6 +937,7 @@ pub fn boot_matrix_cfgs() -> Vec<RunCfg> {
                 deny: None,
                 evil_static_pub: false,
                 build_order: 0,
+                deny_at: 0,
             }],
             rng_mode: RngMode::Stream,
             record: false,
@@ -942,7 +952,7 @@ pub fn boot_matrix_cfgs() -> Vec<RunCfg> {
 pub fn sc_boot_runtime(idx: u64, seed: u64, _t: bool) -> RunOut {
     let plan = Plan {
         scenario: "boot-runtime",
-        opts: CfgOpts { late_psk: 500, ..CfgOpts::default() },
+        opts: CfgOpts { late_psk: 500, surplus_psk: 300, same_statics: 40, surplus_rs: 60, ..CfgOpts::default() },
         profile: Profile { tr_steps: (0, 6), stateless: 500, ..Profile::default() },
         mode: "plain",
         warm_parallel: false,
@@ -1463,8 +1473,10 @@ pub fn sc_stateless_enum(idx: u64, seed: u64, _t: bool) -> RunOut {
 
 /// Long histories (C05, C09, C02): one session per cipher x backend x receiver mode in which the
 /// receiver first rejects more than 2^20 distinct garbage deliveries, must then still accept the
-/// genuine next message, and the peers then exchange more than 2^16 messages in order (the counter
-/// crosses 255/256 and 65535/65536 by counting, not by placement). 12 runs.
+/// genuine next message, and the peers then exchange more than 2^18 (thorough: 2^20) messages per
+/// direction in order under one key (the counter crosses 255/256, 65535/65536, 2^18 by counting,
+/// not by placement; behaviour that depends on how often a key was used shows up here, up to that
+/// bound). 12 runs.
 pub fn sc_soak(idx: u64, seed: u64, thorough: bool) -> RunOut {
     let i = idx % 12;
     let cipher = ["ChaChaPoly", "AESGCM", "XChaChaPoly"][(i % 3) as usize];
@@ -1495,9 +1507,10 @@ pub fn sc_soak(idx: u64, seed: u64, thorough: bool) -> RunOut {
         d.step(Op::Convert { node: 1, stateless: stateless_rcv });
         d.step(Op::TrafficBurst { node: 0, count: 3, plen: 10 });
         d.step(Op::GarbageBurst { node: 1, count: (1 << 20) + 64, len: 33, seed: 7 });
-        d.step(Op::TrafficBurst { node: 0, count: if thorough { 140_000 } else { 66_000 }, plen: 4 });
+        // more than 2^18 (thorough: 2^20) accepted messages under one key, in both directions
+        d.step(Op::TrafficBurst { node: 0, count: if thorough { (1 << 20) + 3_000 } else { (1 << 18) + 3_000 }, plen: 4 });
         if !stateless_rcv {
-            d.step(Op::TrafficBurst { node: 1, count: 300, plen: 0 });
+            d.step(Op::TrafficBurst { node: 1, count: if thorough { (1 << 20) + 3_000 } else { (1 << 18) + 3_000 }, plen: 0 });
         }
         d.step(Op::Query { node: 0 });
         d.step(Op::Query { node: 1 });
@@ -1690,7 +1703,7 @@ pub fn grid_space(name: &str, thorough: bool) -> Option<u64> {
         "auth-enum" => 768,
         "stateless-enum" => 360,
         "soak" => 12,
-        "soak-hs" => 20,
+        "soak-hs" | "x-soak-hs" => 20,
         _ => return None,
     })
 }
@@ -1719,8 +1732,8 @@ macro_rules! scen {
 
 pub fn check_table() -> Vec<Check> {
     const RULE: &str = "runs are generated by a seeded driver (stratified over 38 patterns x psk class x DH x cipher x hash by run index, everything else PRNG); a run is non-trivial if at least one injected fault fired (for fault-free scenarios: it completed a handshake), and distinct by hash of (configuration stratum, sequence of (phase, call, result) events)";
-    vec![
-        Check { id: "C01", level: "exploration", rule: RULE, enumerations: vec![], scens: vec![scen!("interop", sc_interop, 24_000, 600_000, 0x101), scen!("honest", sc_honest, 8_000, 200_000, 0x102), scen!("fail-retry", sc_fail_retry_ledger, 6_000, 100_000, 0x103), scen!("framing-boundary", sc_framing_boundary, 3_040, 10_640, 0x104)] },
+    let mut table = vec![
+        Check { id: "C01", level: "exploration", rule: RULE, enumerations: vec![], scens: vec![scen!("interop", sc_interop, 24_000, 600_000, 0x101), scen!("honest", sc_honest, 8_000, 200_000, 0x102), scen!("fail-retry", sc_fail_retry_ledger, 6_000, 100_000, 0x103), scen!("framing-boundary", sc_framing_boundary, 3_040, 10_640, 0x104), scen!("soak", sc_soak, 12, 12, 0x105)] },
         Check { id: "C02", level: "exploration", rule: RULE, enumerations: vec![], scens: vec![scen!("honest", sc_honest, 24_000, 600_000, 0x201), scen!("interop", sc_interop, 8_000, 200_000, 0x202), scen!("fail-retry", sc_fail_retry_ledger, 6_000, 100_000, 0x203), scen!("framing-boundary", sc_framing_boundary, 3_040, 10_640, 0x204), scen!("soak-hs", sc_soak_hs, 20, 20, 0x205)] },
         Check { id: "C03", level: "exploration", rule: RULE, enumerations: vec![], scens: vec![scen!("tamper-hs", sc_tamper_hs, 30_000, 800_000, 0x301), scen!("chaos", sc_chaos, 4_000, 100_000, 0x302)] },
         Check { id: "C04", level: "exploration", rule: RULE, enumerations: vec![], scens: vec![scen!("transport-auth", sc_transport_auth, 20_000, 500_000, 0x401), scen!("stateless", sc_stateless, 6_000, 100_000, 0x402), scen!("framing-boundary", sc_framing_boundary, 3_040, 10_640, 0x403), scen!("auth-enum", sc_auth_enum, 768, 768, 0x404)] },
@@ -1734,9 +1747,51 @@ pub fn check_table() -> Vec<Check> {
         Check { id: "C12", level: "fault_enumeration", rule: "boot half: every (pattern, role, subset of {local static, remote static} supplied, psk modifier index 0..9 / none / fallback, resolver lacking each primitive) is booted once - complete enumeration; a boot is non-trivial if it is not the all-keys-supplied no-modifier default; run-time half: seeded sessions with PSKs withheld at boot", enumerations: vec!["boot-matrix"], scens: vec![scen!("boot-runtime", sc_boot_runtime, 12_000, 300_000, 0xC01)] },
         Check { id: "C14", level: "exploration", rule: RULE, enumerations: vec![], scens: vec![scen!("framing", sc_framing, 24_000, 600_000, 0xE01), scen!("interop", sc_interop, 6_000, 100_000, 0xE02), scen!("framing-boundary", sc_framing_boundary, 10_640, 42_560, 0xE03), scen!("boundary-sweep", sc_boundary_sweep, 1_536, 6_144, 0xE04)] },
         Check { id: "C15", level: "exploration", rule: RULE, enumerations: vec![], scens: vec![scen!("rekey", sc_rekey, 24_000, 600_000, 0xF01), scen!("nonce", sc_nonce, 6_000, 100_000, 0xF02), scen!("nonce-enum", sc_nonce_enum, 15_552, 15_552, 0xF03), scen!("rekey-enum", sc_rekey_enum, 15_552, 15_552, 0xF04)] },
-        Check { id: "C16", level: "exploration", rule: RULE, enumerations: vec!["stateless-threads"], scens: vec![scen!("stateless", sc_stateless, 24_000, 600_000, 0x1001), scen!("stateless-enum", sc_stateless_enum, 360, 360, 0x1002), scen!("auth-enum", sc_auth_enum, 768, 768, 0x1003)] },
+        Check { id: "C16", level: "exploration", rule: RULE, enumerations: vec!["stateless-threads"], scens: vec![scen!("stateless", sc_stateless, 24_000, 600_000, 0x1001), scen!("stateless-enum", sc_stateless_enum, 360, 360, 0x1002), scen!("auth-enum", sc_auth_enum, 768, 768, 0x1003), scen!("soak", sc_soak, 12, 12, 0x1004)] },
         Check { id: "C17", level: "exploration", rule: RULE, enumerations: vec![], scens: vec![scen!("honest", sc_honest, 16_000, 400_000, 0x1101), scen!("fail-retry", sc_fail_retry_ledger, 8_000, 200_000, 0x1102)] },
         Check { id: "C19", level: "exploration", rule: RULE, enumerations: vec![], scens: vec![scen!("leak", sc_leak, 24_000, 600_000, 0x1301), scen!("tamper-hs", sc_tamper_hs, 6_000, 100_000, 0x1302), scen!("leak-enum", sc_leak_enum, 2_700, 2_700, 0x1303)] },
         Check { id: "C20", level: "exploration", rule: RULE, enumerations: vec!["fallback-table"], scens: vec![scen!("backends-twin", sc_backends_twin, 8_000, 200_000, 0x1401), scen!("rekey-enum-twin", sc_rekey_enum_twin, 5_184, 5_184, 0x1402)] },
-    ]
+    ];
+    add_cross_slices(&mut table);
+    table
+}
+
+/// Every check also runs a small slice of every seeded scenario that is not already one of its
+/// own. A check reports only violations of its own property, but a symptom of that property can
+/// surface in a scenario that was designed around another one (a build expectation in a
+/// tampering run, a panic in a long-history run, a MissingPsk rule in a failure/retry run); the
+/// slices make sure such a symptom has a check that reports it.
+fn add_cross_slices(table: &mut [Check]) {
+    let seeded: [(&'static str, ScenarioFn); 17] = [
+        ("x-interop", sc_interop),
+        ("x-honest", sc_honest),
+        ("x-fail-retry", sc_fail_retry_ledger),
+        ("x-tamper-hs", sc_tamper_hs),
+        ("x-chaos", sc_chaos),
+        ("x-chaos-keys", sc_chaos_keys),
+        ("x-transport-auth", sc_transport_auth),
+        ("x-transport-sched", sc_transport_sched),
+        ("x-stateless", sc_stateless),
+        ("x-nonce", sc_nonce),
+        ("x-mismatch", sc_mismatch),
+        ("x-mismatch-cross", sc_mismatch_cross),
+        ("x-framing", sc_framing),
+        ("x-statemachine", sc_statemachine),
+        ("x-rekey", sc_rekey),
+        ("x-leak", sc_leak),
+        ("x-boot-runtime", sc_boot_runtime),
+    ];
+    for (ci, c) in table.iter_mut().enumerate() {
+        let own: Vec<usize> = c.scens.iter().map(|s| s.f as usize).collect();
+        for (k, (name, f)) in seeded.iter().enumerate() {
+            if own.contains(&(*f as usize)) {
+                continue;
+            }
+            c.scens.push(Scen { name, f: *f, quick: 1_500, thorough: 30_000, salt: 0xC000 + (ci as u64) * 64 + k as u64 });
+        }
+        // the long handshake histories are cheap enough for every check
+        if !own.contains(&(sc_soak_hs as ScenarioFn as usize)) {
+            c.scens.push(Scen { name: "x-soak-hs", f: sc_soak_hs, quick: 20, thorough: 20, salt: 0xC000 + (ci as u64) * 64 + 40 });
+        }
+    }
 }
